@@ -1251,9 +1251,6 @@ def _prefetch(cases, retry=True):
                     _LIVE[k]['retried'] = ['first observation differed: %s' % json.dumps(first[k])[:300]]
 
 
-_ROOT_BEFORE = None
-
-
 def _kill_strays():
     """nothing started by this module may outlive it"""
     for ch in multiprocessing.active_children():
@@ -1262,6 +1259,14 @@ def _kill_strays():
             ch.join(1)
         except Exception:
             pass
+    try:
+        for pid in _descendants(os.getpid()):       # /proc scan: acceptors / workers of a killed batch worker
+            try:
+                os.kill(pid, signal.SIGKILL)
+            except OSError:
+                pass
+    except Exception:
+        pass
 
 
 def _observe_live(case):
@@ -1320,10 +1325,6 @@ def model_lines(case):
     if k == 'fd':
         return ['modes fds %s %d' % (case['mode'], case['finished'])]
     return ['modes live']
-
-
-def _impl_prefix(lines):
-    return lines
 
 
 def oracle(case):
